@@ -29,3 +29,8 @@ package v1
 // ask for them (without the flag the store returns accounts with no volumes and the endpoint reports no balance at all)
 //@ func v1.getBalances
 //@   property C04
+
+// C10: the unforced / forced mode of a revert request reaches the engine as the request states it (contracts/extern/backend.contracts)
+//@ func v1.revertTransaction
+//@   requires r != nil
+//@   property C10
